@@ -427,7 +427,18 @@ func injectPyPIScenario(t *rapid.T, u *Universe) {
 		v.Reqs = append(v.Reqs, UReq{Name: target, Req: spec, Type: typ})
 	}
 	hi := func(p *UPkg) *UVer { return &p.Versions[len(p.Versions)-1] }
-	switch rapid.IntRange(0, 2).Draw(t, "scenariokind") {
+	switch rapid.IntRange(0, 3).Draw(t, "scenariokind") {
+	case 3: // a cycle back to the root package, one requirement naming a prerelease
+		for i := range root.Versions {
+			set(&root.Versions[i], P.Name, "", "")
+			set(&root.Versions[i], R.Name, "", "")
+		}
+		for i := range P.Versions {
+			set(&P.Versions[i], root.Name, rapid.SampledFrom([]string{">=0.1a1", ">=1.0a1", ">=0.5.dev1", "<9.0rc1"}).Draw(t, "prespec"), "")
+		}
+		for i := range R.Versions {
+			set(&R.Versions[i], root.Name, rapid.SampledFrom([]string{"", ">=0.1", ">1.0", "<9", ">=1.1"}).Draw(t, "plainspec"), "")
+		}
 	case 0, 1: // late extra (1: with a conflict behind it)
 		for i := range root.Versions {
 			set(&root.Versions[i], P.Name, "", "")
